@@ -35,12 +35,20 @@ def run(ctx):
     ctx.call(GR.validate_coverage, "4v")
     ctx.call(T.t_s1, "3x/T.S1")
     ctx.call(GR.name_forms, "5n")
+    ctx.call(GR.worker_symmetry, "6")
 
 
 NODE = "cartgraph/node.py"
 G = "cartgraph/graph.py"
 I = "intertest_setup.py"
 MUTANTS = [
+    ("first-worker-objects-only", "cartgraph/graph.py", "            old_ids = {o.id for o in graph.objects}\n            graph.new_objects(\n                [s for s in stubs if s.key == \"nets\" or s.id not in old_ids]\n            )",
+     "            if i == 0:\n                graph.new_objects(stubs)\n            else:\n                graph.new_objects([s for s in stubs if s.key == \"nets\"])", "6"),
+    ("later-workers-nets-only", "cartgraph/graph.py", "            old_ids = {o.id for o in graph.objects}\n            graph.new_objects(\n                [s for s in stubs if s.key == \"nets\" or s.id not in old_ids]\n            )",
+     "            old_ids = {o.id for o in graph.objects}\n            graph.new_objects(\n                [s for s in stubs if s.key == \"nets\" or not old_ids]\n            )", "6o"),
+    ("all-stubs-duplicated", "cartgraph/graph.py", "            old_ids = {o.id for o in graph.objects}\n            graph.new_objects(\n                [s for s in stubs if s.key == \"nets\" or s.id not in old_ids]\n            )", "            graph.new_objects(stubs)", "6o"),
+    ("P-known-ids-renamed", "cartgraph/graph.py", "            old_ids = {o.id for o in graph.objects}\n            graph.new_objects(\n                [s for s in stubs if s.key == \"nets\" or s.id not in old_ids]\n            )",
+     "            known = {obj.id for obj in graph.objects}\n            graph.new_objects([stub for stub in stubs if stub.id not in known or stub.key == \"nets\"])", None),
     ("one-way-bridge", NODE, "            self._bridged_nodes.append(test_node)\n            test_node._bridged_nodes.append(self)", "            self._bridged_nodes.append(test_node)", "1"),
     ("counters-not-shared", NODE, "            self._dropped_cleanup_nodes = test_node._dropped_cleanup_nodes\n", "", "1"),
     ("non-equivalent-accepted", NODE, "        elif not re.search(test_node.bridged_form, self.params[\"name\"]):\n            raise ValueError(f\"Cannot bridge {self} with non-equivalent {test_node}\")\n", "", "1"),
